@@ -24,7 +24,7 @@ from vf.core import CaseResult, Ctx, Violation, hyp_run
 
 PROP_ID = 'C24'
 LEVEL = 'exploration'
-BUDGET = {'quick': 16000, 'thorough': 240000}
+BUDGET = {'quick': 12000, 'thorough': 240000}
 MANIFEST = {
     'engine': 'P',
     'technique': 'Hypothesis-generated Python expression ASTs (whitelisted '
